@@ -1,6 +1,7 @@
 package pgsim
 
 import (
+	"fmt"
 	"sort"
 	"strings"
 )
@@ -779,7 +780,22 @@ func (db *DB) execSelect(s selectStmt, args []any) (*Result, *Error) {
 	if lim >= 0 && lim < len(rows) {
 		rows = rows[:lim]
 	}
-	return db.project(t, s.cols, s.cols == nil, rows, args)
+	res, perr := db.project(t, s.cols, s.cols == nil, rows, args)
+	if perr != nil || !s.distinct {
+		return res, perr
+	}
+	// SELECT DISTINCT: equal result rows collapse (NULLs count as equal here)
+	seen := map[string]bool{}
+	var kept [][]any
+	for _, r := range res.Rows {
+		k := fmt.Sprintf("%#v", r)
+		if !seen[k] {
+			seen[k] = true
+			kept = append(kept, r)
+		}
+	}
+	res.Rows = kept
+	return res, nil
 }
 
 func (db *DB) defaultFor(t *Table, ci int) (any, *Error) {
